@@ -504,7 +504,11 @@ func (t *Collection) VisitItemsRandom(
 			// The behaviour we want is to visit the first item in each of blockStore
 			// then on the second item update blockStore to point to that second item
 			// repeat for each item in the block
+			if si == nil {
+				continue // This block ran out of items in an earlier round.
+			}
 			first := true
+			advanced := false
 			vis := func(itm *Item, depth uint64) bool {
 
 				if first {
@@ -512,12 +516,18 @@ func (t *Collection) VisitItemsRandom(
 					return visitor(itm, depth)
 				}
 				first = true
+				advanced = true
 				blockStore[i] = itm.Key
 				return false
 			}
 			err = t.VisitItemsAscendEx(si, true, vis)
 			if err != nil {
 				return err
+			}
+			if !advanced {
+				// Nothing follows the item just visited (the last block may be
+				// short), so don't present it again in the next round.
+				blockStore[i] = nil
 			}
 		}
 	}
